@@ -309,7 +309,8 @@ class C17(Engine):
             for d in descr:
                 res.fault("disk:" + d.split("@")[0].split("+")[0])
         argv = list(plan["argv"])
-        if plan.get("build") == "small" and len(data) > 65536:
+        if plan.get("build") == "small" and (len(data) > 65536 or fmt == "uf2"):
+            # (a UF2 image always spans up to the filler block at 0x10ffff00: a million 256-byte pages to walk)
             # the page list of the small-page build is searched linearly: a big image is slow to load, not hung
             ex = self.variant(ex0, "san")
             res.probe("small_build_skipped_big_image")
